@@ -39,6 +39,16 @@ class Bus:
         self.trace.append((bits, value, twice, list(answers)))
         return answers
 
+    def idle(self, item):
+        """A sleep item of the sequence: that much time passes on the bus (units that need time for something - taking
+        up a new random address, for one - get it)."""
+        d = getattr(item, "delay", None)
+        if isinstance(d, (int, float)) and d > 0:
+            for u in self.units:
+                el = getattr(u, "elapse", None)
+                if el is not None:
+                    el(d)
+
     def transact(self, cmd):
         """Returns what a driver would hand back: None for non-queries, else cmd.response(frame|None)."""
         from dali import frame
@@ -86,7 +96,8 @@ class Bus:
                 resp = None
                 if isinstance(item, command.Command):
                     resp = self.transact(item)
-                # sleep / progress objects are consumed
+                else:
+                    self.idle(item)      # sleep / progress objects are consumed; a sleep lets time pass for the units
         except StopIteration as e:
             return e.value
         finally:
@@ -135,6 +146,7 @@ def run_interleaved(pairs, schedule=(), cycle=None, order=None):
                 if isinstance(item, command.Command):
                     resp[i] = buses[i].transact(item)
                     return
+                buses[i].idle(item)
         except StopIteration as e:
             outcome[i] = ("returned", e.value)
         except Exception as e:  # noqa: handed to the caller
